@@ -536,4 +536,12 @@ def run(ctx: Ctx, who_may_write=True):
         c.check_who_may_write()
         ctx.rule("R02.7", "identifiers unique within each top-level list: own lists are not written element by element", 20)
         check_own_list_uniqueness(ctx, c)
+        # "each identifier mentioned ... is defined in the corresponding top-level list": every store a conversion can fill is
+        # written out as the document's list of that kind (C01's list-completeness rule is a necessary condition here too)
+        from .c01 import C01
+        with ctx.delegated("C01/"):
+            ctx.rule("R01.4", "every store-bearing sub-adapter of a collection is written as its top-level list, by the matching adapter", 50)
+            c1 = C01(ctx)
+            for col in c1.ao.collections:
+                c1.check_lists(col)
     return EXPLANATION, ASSUMPTIONS
